@@ -1,31 +1,8 @@
 (* C17 lemmas, part 4: the failing line of a traceback frame is displayed, alone carries the
    pointer, under its own number. *)
 From RichModel Require Import Prelude Cells Segments Syntax SpecSyntax.
-From RichProofs Require Import CellsP SegmentsP SyntaxP SyntaxP2 SyntaxP3.
+From RichProofs Require Import CellsP SegmentsP SyntaxP SyntaxP2 SyntaxW SyntaxG SyntaxP3.
 From Coq Require Import ZifyBool Lia.
-
-(* the explicit form of a numbered rendering without indent guides *)
-Lemma render_numbered_form lex wrapf o code W :
-  LexOk (f_lex fixed_facts) lex ->
-  clean code = true -> o_line_numbers o = true -> o_indent_guides o = false -> range_end_nonneg o ->
-  exists shown,
-    render lex fixed_facts wrapf o code W =
-      Ok (render_numbered wrapf o (numbers_column_width o code) (code_width_of o code W) shown (first_number o)) /\
-    pfx_blank shown (range_clip o (source_lines o code)) /\
-    (shown <> [] -> line_offset_of o + zlen shown <= count_nl code + 1).
-Proof.
-  intros HLex Hclean Hln Hg Hre.
-  unfold render, source_lines. set (c := expandtabs (o_tab_size o) code).
-  assert (Hc : clean c = true) by (apply clean_expandtabs_go; exact Hclean).
-  destruct (highlight_text lex (o_lexer_found o) c (o_range o) HLex Hc) as [t [Ht Hshape]].
-  rewrite Ht. cbn [bind]. rewrite Hln, Hg. cbn [negb andb].
-  eexists. split; [reflexivity|].
-  pose proof (shown_lines_ok o t c Hre Hshape) as Hp. split; [exact Hp|].
-  intros Hne. pose proof (range_clip_bound o (split_nl c) _ Hp Hne) as Hb.
-  unfold zlen in Hb at 2. rewrite split_nl_length in Hb.
-  assert (Hnls : nls c = nls code) by apply nls_expandtabs_go.
-  rewrite count_nl_nls. lia.
-Qed.
 
 Lemma pointer_neq : str_eqb [SP; SP] POINTER = false.
 Proof. reflexivity. Qed.
@@ -96,25 +73,34 @@ Proof.
     rewrite forallb_forall in Hr. rewrite (Hr e Hn) in Hb. discriminate.
 Qed.
 
-Theorem traceback_marks_failing_line lex wrapf code lineno extra transparent W avail e :
+Lemma Forall2_nth {A B} (R : A -> B -> Prop) la lb i a :
+  Forall2 R la lb -> nth_error la i = Some a -> exists b, nth_error lb i = Some b /\ R a b.
+Proof.
+  intros HF. revert i. induction HF as [|x y la lb Hxy HF IH]; intros i Hn; [destruct i; discriminate|].
+  destruct i as [|i]; [inversion Hn; subst; exists y; split; [reflexivity|exact Hxy]|]. apply IH. exact Hn.
+Qed.
+
+Theorem traceback_marks_failing_line lex wrapf code lineno extra transparent guides W avail e :
   LexOk (f_lex fixed_facts) lex ->
   clean code = true -> 0 <= extra -> 1 <= lineno ->
   SyntaxFacts.tb_line_numbers = true -> SyntaxFacts.tb_range_is_lineno_pm_extra = true ->
   SyntaxFacts.tb_highlight_is_lineno = true -> 0 <= SyntaxFacts.tb_code_width ->
-  SyntaxFacts.syntax_default_start_line = 1 ->
-  let o := tb_opts lineno extra false transparent false in
+  SyntaxFacts.syntax_default_start_line = 1 -> 1 <= SyntaxFacts.syntax_default_tab_size ->
+  let o := tb_opts lineno extra false transparent guides in
   nth_error (source_lines o code) (Z.to_nat (lineno - 1)) = Some e -> blank e = false ->
   SyntaxFacts.tb_code_width + spec_gutter_width o code <= avail ->
-  exists out, render_frame lex fixed_facts wrapf code lineno extra false transparent false W = Ok out /\
-              failing_line_b code lineno avail false out = true.
+  exists out, render_frame lex fixed_facts wrapf code lineno extra false transparent guides W = Ok out /\
+              failing_line_b code lineno avail guides out = true.
 Proof.
-  intros HLex Hc He Hl F1 F2 F3 F4 F5 o Hnth Hnb Hav. unfold render_frame. fold o.
+  intros HLex Hc He Hl F1 F2 F3 F4 F5 F6 o Hnth Hnb Hav. unfold render_frame. fold o.
   assert (Hhl : o_highlight o = [lineno]) by (unfold o, tb_opts; cbn [o_highlight]; rewrite F3; reflexivity).
   assert (Hr : o_range o = Some (lineno - extra, lineno + extra)) by (unfold o, tb_opts; cbn [o_range]; rewrite F2; reflexivity).
   assert (Hln : o_line_numbers o = true) by exact F1.
   assert (Hst : o_start_line o = 1) by exact F5.
   assert (Hre : range_end_nonneg o) by (unfold range_end_nonneg; rewrite Hr; lia).
-  destruct (render_numbered_form lex wrapf o code W HLex Hc Hln eq_refl Hre) as [shown [Hren [Hp Hb]]].
+  assert (Hg : o_indent_guides o = guides) by reflexivity.
+  assert (Hts : o_indent_guides o = true -> 1 <= o_tab_size o) by (intros _; exact F6).
+  destruct (render_numbered_form lex wrapf HLex o code W Hc Hln Hre Hts) as [shown [Hren [Hp Hb]]].
   rewrite Hren. eexists. split; [reflexivity|].
   set (M := o_start_line o + count_nl code).
   assert (HM : 0 <= M) by (unfold M; rewrite Hst, count_nl_nls; lia).
@@ -124,31 +110,48 @@ Proof.
   set (off := line_offset_of o) in *.
   assert (Hoff : off = Z.max 0 (lineno - extra - 1)) by (unfold off, line_offset_of; rewrite Hr; reflexivity).
   assert (Hk0 : first_number o = 1 + off) by (unfold first_number; rewrite Hst; reflexivity).
-  (* the failing line is the (lineno-1-off)-th displayed line *)
-  assert (Hsh : nth_error shown (Z.to_nat (lineno - 1 - off)) = Some e).
+  set (i := Z.to_nat (lineno - 1 - off)).
+  (* the failing line is the i-th selected line *)
+  assert (Hsh : nth_error shown i = Some e).
   { apply (pfx_blank_nth _ _ _ _ Hp); [|exact Hnb]. unfold range_clip. rewrite Hr.
     fold off in Hoff. replace (Z.max 0 (lineno - extra - 1)) with off by lia.
-    rewrite nth_error_skipn, nth_error_firstn by lia.
-    replace (Z.to_nat off + Z.to_nat (lineno - 1 - off))%nat with (Z.to_nat (lineno - 1)) by lia. exact Hnth. }
-  assert (Hne : shown <> []) by (intros ->; destruct (Z.to_nat (lineno - 1 - off)); discriminate).
+    rewrite nth_error_skipn, nth_error_firstn by (unfold i; lia).
+    replace (Z.to_nat off + i)%nat with (Z.to_nat (lineno - 1)) by (unfold i; lia). exact Hnth. }
+  assert (Hne : shown <> []) by (intros ->; destruct i; discriminate).
   specialize (Hb Hne).
+  (* ... and the i-th numbered line shows it *)
+  assert (Hline : exists g, nth_error (numbered_lines o shown) i = Some g /\
+                            (length (numbered_lines o shown) <= length shown)%nat /\
+                            (if guides then guide_rel e g else g = e)).
+  { unfold numbered_lines. rewrite Hg. destruct guides; cbn [andb].
+    - destruct shown as [|l0 ls0] eqn:Esh; [congruence|]. rewrite <- Esh in *.
+      destruct (with_guides_rel (o_tab_size o) shown (Hts eq_refl) Hne) as [S1 [r1 [HS [Hr1 HF]]]].
+      assert (HS1 : nth_error S1 i = Some e).
+      { apply (pfx_blank_nth S1 shown i e); [exists r1; split; assumption|exact Hsh|exact Hnb]. }
+      destruct (Forall2_nth _ _ _ _ _ HF HS1) as [g [Hg1 Hg2]].
+      exists g. split; [exact Hg1|]. split; [|exact Hg2].
+      apply Forall2_len in HF. rewrite <- HF, HS, app_length. lia.
+    - exists e. split; [exact Hsh|]. split; [lia|reflexivity]. }
+  destruct Hline as [g [Hgn [Hglen Hgrel]]].
   unfold failing_line_b.
   assert (Hsrc : source_lines (tb_opts lineno 0 false true false) code = source_lines o code) by reflexivity.
   assert (Hgw0 : spec_gutter_width (tb_opts lineno 0 false true false) code = spec_gutter_width o code) by reflexivity.
   rewrite Hsrc, Hgw0, Hnth, Hgw, Hncw, Hcw, Hk0.
-  rewrite (marked_filter wrapf o M SyntaxFacts.tb_code_width lineno eq_refl Hhl shown (1 + off)).
+  assert (Hi : (i < length (numbered_lines o shown))%nat) by (apply nth_error_Some; rewrite Hgn; discriminate).
+  rewrite (marked_filter wrapf o M SyntaxFacts.tb_code_width lineno eq_refl Hhl (numbered_lines o shown) (1 + off)).
   2: lia.
-  2:{ intros _. unfold M. rewrite Hst. lia. }
+  2:{ intros _. unfold M. rewrite Hst. unfold zlen in *. lia. }
   replace (1 + off <=? lineno) with true by lia.
-  replace (Z.to_nat (lineno - (1 + off))) with (Z.to_nat (lineno - 1 - off)) by lia.
-  rewrite Hsh.
+  replace (Z.to_nat (lineno - (1 + off))) with i by (unfold i; lia).
+  rewrite Hgn.
   assert (HlM : 0 <= lineno <= M).
-  { assert (Hlt : (Z.to_nat (lineno - 1 - off) < length shown)%nat) by (apply nth_error_Some; rewrite Hsh; discriminate).
-    unfold M. rewrite Hst. unfold zlen in Hb. lia. }
+  { unfold M. rewrite Hst. unfold zlen in Hb. unfold i in Hi. lia. }
   rewrite (gut_of_prefix M) by (apply gutter_len; assumption).
   rewrite (body_of_prefix M) by (apply gutter_len; assumption).
   destruct (gutter_fields o M lineno HlM) as [Hnum _]. rewrite Hnum, str_eqb_refl.
   replace (1 <=? lineno) with true by lia. cbn [andb].
   rewrite Hgw in Hav. rewrite Z.min_l by lia.
-  apply crop_line_ok. exact F4.
+  destruct guides.
+  - apply guided_crop_ok; assumption.
+  - subst g. apply crop_line_ok. exact F4.
 Qed.
